@@ -90,7 +90,12 @@ Quiescent(c, f, w, hid, fz, o) ==
          \A t \in Trees(c) \ fz :
             o.trees[t + 1][1] + SlotFree(c, o, t) = FreeInTree(c, f, t) - hid[t])
   /\ Chk("C04", "tree-counter-bounds",
-         \A t \in fz : o.trees[t + 1][1] + SlotFree(c, o, t) <= FreeInTree(c, f, t))
+         \A t \in fz \cap Trees(c) : o.trees[t + 1][1] + SlotFree(c, o, t) <= FreeInTree(c, f, t))
+  \* C15 under concurrency: whatever tree a change was applied to, no tree may account for more than is free
+  /\ Chk("C15", "tree-counter-bounds-after-changes",
+         \A t \in Trees(c) : o.trees[t + 1][1] + SlotFree(c, o, t) <= FreeInTree(c, f, t))
+  /\ Chk("C15", "reserved-iff-one-slot",
+         \A t \in Trees(c) : (o.trees[t + 1][2] = 1) <=> (Cardinality(SlotsOn(c, o, t)) = 1))
   /\ Chk("C04", "reserved-iff-one-slot",
          \A t \in Trees(c) : (o.trees[t + 1][2] = 1) <=> (Cardinality(SlotsOn(c, o, t)) = 1))
   /\ Chk("C04", "no-slot-shares-tree", \A t \in Trees(c) : Cardinality(SlotsOn(c, o, t)) <= 1)
